@@ -202,6 +202,8 @@ class StepPlan:
     writes: List[str] = field(default_factory=list)
     problems: List[str] = field(default_factory=list)     # constructs outside the enumerated idioms
     violations: List[str] = field(default_factory=list)   # derived contradictions found while executing
+    assumptions: List[str] = field(default_factory=list)  # sub-scenario: outcomes assumed for tests that the direction alone does not decide
+    foreign_tests: List[str] = field(default_factory=list)  # tests comparing the held time with something that is not this move's target
     literals: List[str] = field(default_factory=list)
 
 
@@ -218,6 +220,9 @@ class StepExec:
         self.dsign = d
         self.loop: Optional[Any] = None
         self.guard: Optional[Any] = None
+        self.choices: List[bool] = []
+        self.choice_ptr = 0
+        self.needed_more = False
 
     # ---- numeric evaluation
     def num(self, e) -> Optional[Scalar]:
@@ -229,7 +234,13 @@ class StepExec:
             return s_const(e[1])
         if k == "ref":
             v = self.env.get(e[1])
-            return v if isinstance(v, Scalar) else None
+            if isinstance(v, Scalar):
+                return v
+            if isinstance(e[1], str) and e[1].startswith("caller::"):
+                return Scalar.atom("?" + e[1][8:])
+            return None
+        if k == "field" and self._rooted_in_caller(e):
+            return Scalar.atom("?" + cppast.show(e).replace("caller::", ""))
         if k == "un" and e[1] == "-":
             v = self.num(e[2])
             return -v if v is not None else None
@@ -272,6 +283,11 @@ class StepExec:
             return None
         return None
 
+    def _rooted_in_caller(self, e):
+        while isinstance(e, tuple) and e and e[0] == "field":
+            e = e[1]
+        return isinstance(e, tuple) and e and e[0] == "ref" and isinstance(e[1], str) and e[1].startswith("caller::")
+
     def diff_sign(self, s: Scalar) -> str:
         """sign of a polynomial that is c*(TARGET - HELD) (+0) under the scenario, else via sign_of"""
         t = dict(s.t)
@@ -289,11 +305,50 @@ class StepExec:
             l, r = self.num(c[2]), self.num(c[3])
             if l is None or r is None:
                 return None
-            sg = self.diff_sign(l - r)
-            if sg == "?":
+            d = l - r
+            t = dict(d.t)
+            ct = t.pop((("TARGET", 1),), 0)
+            ch = t.pop((("HELD", 1),), 0)
+            c0 = t.pop((), 0)
+            if t:
+                foreign = [a for mono in t for a, _ in mono if isinstance(a, str) and a.startswith("?")]
+                if foreign and (ct or ch):
+                    self.plan.foreign_tests.append(cppast.show(c).replace("caller::", ""))
                 return None
-            return {">": sg == "+", ">=": sg in ("+", "0"), "<": sg == "-", "<=": sg in ("-", "0"),
-                    "==": sg == "0", "!=": sg != "0"}[c[1]]
+            if ct != -ch:
+                return None
+            a = ct
+            op = c[1]
+            if a == 0:
+                v = c0
+                return {">": v > 0, ">=": v >= 0, "<": v < 0, "<=": v <= 0, "==": v == 0, "!=": v != 0}[op]
+            up = (a > 0) == (self.dsign == "+")        # value ranges over (c0, +inf) if up else (-inf, c0)
+            if self.dsign == "0":
+                v = c0
+                return {">": v > 0, ">=": v >= 0, "<": v < 0, "<=": v <= 0, "==": v == 0, "!=": v != 0}[op]
+            if op in (">", ">="):
+                if up:
+                    res = True if c0 >= 0 else "BOTH"
+                else:
+                    res = False if c0 <= 0 else "BOTH"
+            elif op in ("<", "<="):
+                if up:
+                    res = False if c0 >= 0 else "BOTH"
+                else:
+                    res = True if c0 <= 0 else "BOTH"
+            else:
+                zero_in = (c0 < 0) if up else (c0 > 0)
+                res = "BOTH" if zero_in else (op == "!=")
+            if res == "BOTH":
+                if self.choice_ptr < len(self.choices):
+                    pick = self.choices[self.choice_ptr]
+                else:
+                    pick = True
+                    self.needed_more = True
+                self.choice_ptr += 1
+                self.plan.assumptions.append(("" if pick else "not ") + cppast.show(c))
+                return pick
+            return res
         if c[0] == "un" and c[1] == "!":
             t = self.truth(c[2])
             return None if t is None else (not t)
@@ -490,6 +545,26 @@ def _same(a, b):
         return False
 
 
+def step_plans(lang, name, body, scenario, anchors, max_depth=3):
+    """all StepPlans of one step function under a direction scenario: one per feasible outcome of the tests that the direction alone
+    does not decide (e.g. `target - held < 1e-9` when target > held)"""
+    out = []
+    todo = [[]]
+    while todo:
+        choices = todo.pop(0)
+        ex = StepExec(lang, name, body, {}, scenario, anchors)
+        ex.choices = list(choices)
+        plan = ex.run()
+        if ex.needed_more and len(choices) < max_depth:
+            # the run asked for more outcomes than supplied: it took True for the first missing one; enumerate both explicitly
+            n = len(choices)
+            todo.append(choices + [True])
+            todo.append(choices + [False])
+            continue
+        out.append(plan)
+    return out
+
+
 # ------------------------------------------------------------------------------------------ C++ harness
 STUB_TU = r"""
 #include <formak/runtime/ManagedFilter.h>
@@ -619,7 +694,13 @@ def _single_atom(s: Scalar):
 
 
 def check_stepplan(ctx: core.Ctx, plan: StepPlan, file: str, func: str, tag: str):
-    where = f"{file}:{func} [{tag}, {plan.scenario}]"
+    sub = (" when " + " and ".join(plan.assumptions)) if plan.assumptions else ""
+    where = f"{file}:{func} [{tag}, {plan.scenario}{sub}]"
+    if plan.foreign_tests:
+        ctx.oblige("DIR", where, f"direction tests {plan.foreign_tests}", False, file=file, func=func, construct=f"direction test operand {plan.scenario}",
+                   msg=f"the step direction is decided by `{plan.foreign_tests[0]}`, which compares the held time with something other than the target "
+                       f"of this move: a move that points the other way gets steps of the wrong sign")
+        return
     for p in plan.problems:
         ctx.error(f"{where}: {p}")
     for v in plan.violations:
@@ -640,12 +721,12 @@ def check_stepplan(ctx: core.Ctx, plan: StepPlan, file: str, func: str, tag: str
         return
     is_max = h == Sym.MAX or h == -Sym.MAX
     lit = len(h.t) == 1 and () in h.t
-    ctx.oblige("MAG", where, f"loop step = {h!r}", is_max, file=file, func=func, construct=f"loop step {plan.scenario}",
+    ctx.oblige("MAG", where, f"loop step = {h!r}", is_max, file=file, func=func, construct=f"loop step {plan.scenario}{sub}",
                msg=(f"the {plan.scenario} loop step is the numeric literal {h!r}, not the configured maximum step" if lit
                     else f"the {plan.scenario} loop step is {h!r}, not +-(configured maximum step)"))
     sg = sign_of(h, facts)
-    ctx.oblige("DIR", where, f"sign(loop step) = {sg}", sg == want, file=file, func=func, construct=f"loop step sign {plan.scenario}",
-               msg=f"moving {'forwards' if want == '+' else 'backwards'} in time the loop step {h!r} has sign {sg}")
+    ctx.oblige("DIR", where, f"sign(loop step) = {sg}", sg == want, file=file, func=func, construct=f"loop step sign {plan.scenario}{sub}",
+               msg=f"moving {'forwards' if want == '+' else 'backwards'} in time{sub} the loop step {h!r} has sign {sg}")
     # K
     k = lp.in_loop
     if not isinstance(k, Scalar):
